@@ -88,6 +88,7 @@ let eout_s = function EOk true -> "T" | EOk false -> "F" | EErr -> "E" | EPanic 
 
 let c17 f =
   match f with
+  | kind :: _ when String.length kind >= 3 && String.sub kind 0 3 = "big" -> "big"
   | [_kind; same; _aa; at; ad; asegs; acaps; asel; _ba; bt; bd; bsegs; bcaps; bsel] ->
     let same = same = "1" in
     let ma = segs_of asegs and mb = segs_of bsegs in
